@@ -62,6 +62,26 @@ class NNInner(AutoSerialize, _torch.nn.Module):
         self.__dict__.update(kw)
 
 
+def _foreign_namespace():
+    ns = {k: v for k, v in vars(AutoSerialize).items() if k not in ("__dict__", "__weakref__")}
+    # an EQUAL but not IDENTICAL marker object, as a class derived from another load of the serializer module carries it
+    ns["__autoserialize_marker__"] = tuple(list(AutoSerialize.__autoserialize_marker__))
+    ns["__module__"] = __name__
+    ns["__qualname__"] = "ForeignAuto"
+    ns["__init__"] = lambda self, **kw: self.__dict__.update(kw)
+    ns["__doc__"] = "Behaves like an AutoSerialize class without deriving from THIS AutoSerialize: recognised through its marker only."
+    return ns
+
+
+ForeignAuto = type("ForeignAuto", (), _foreign_namespace())
+assert ForeignAuto.__autoserialize_marker__ == AutoSerialize.__autoserialize_marker__ and ForeignAuto.__autoserialize_marker__ is not AutoSerialize.__autoserialize_marker__
+
+
+def is_auto(v):
+    """the property's notion of 'an AutoSerialize object' (docstring of _is_autoserialize_instance): an instance, or a class carrying an equal marker"""
+    return isinstance(v, AutoSerialize) or getattr(type(v), "__autoserialize_marker__", None) == AutoSerialize.__autoserialize_marker__
+
+
 _REG = {}
 MODE = {"skip": False}  # C14 re-uses this module with symbolic skip sets
 
@@ -230,6 +250,8 @@ def mk_value(ctx, case, tag="v"):
         n1 = fresh_name(ctx, tag + "_f1", Inner)
         n2 = fresh_name(ctx, tag + "_f2", Inner, distinct_from=[n1])
         return mk_obj(Inner, [(n1, ctx.fresh(tag + "_c1", "int")), (n2, ctx.fresh(tag + "_c2", "int"))])
+    if case == "obj:foreign":
+        return mk_obj(ForeignAuto, [("c", ctx.fresh(tag + "_c", "int"))])
     if case == "obj:module":
         o = mk_obj(NNInner, [("c", ctx.fresh(tag + "_c", "int"))])
         return o
@@ -238,7 +260,7 @@ def mk_value(ctx, case, tag="v"):
 
 CONTAINER_CASES = ["list:int", "list:str", "list:empty", "tuple:int", "tuple:str", "tuple:empty", "dict", "dict:empty",
                    "set:int", "set:str", "set:empty"]
-OBJ_CASES = ["obj", "obj:empty", "obj:module"]
+OBJ_CASES = ["obj", "obj:empty", "obj:module", "obj:foreign"]
 ATTR_CASES = LEAF_CASES + EXTRA_CASES + CONTAINER_CASES + OBJ_CASES + ["npcomplex"]
 
 
@@ -439,6 +461,15 @@ def equiv(l, o, exp, pre=""):
             return out
         add("length", len(l) == len(o))
         if len(l) == len(o):
+            if len(o) > 0 and all(cm.is_numeric_value(y) for y in o):
+                # the property: all-numeric sequences are compared by NUMERIC VALUE (the python kind of an element may change: 1 -> 1.0)
+                for i, (x, y) in enumerate(zip(l, o)):
+                    okx = cm.is_numeric_value(x)
+                    add(f"[{i}]:numeric", okx)
+                    if okx:
+                        a, b = V.coerce2(cm.numeric_of(x), cm.numeric_of(y))
+                        add(f"[{i}]:numeric-value", a == b)
+                return out
             for i, (x, y) in enumerate(zip(l, o)):
                 out += equiv(x, y, exp, f"{pre}[{i}]:")
         return out
@@ -773,6 +804,11 @@ def container_cases():
     out.append(("list", ("str",) * 11))
     out.append(("tuple", ("none", "str", "int", "path") * 3))
     out.append(("list", ("int",) * 11))
+    # all-numeric sequences of MIXED numeric kinds (ndarray fast path): every element keeps its numeric value whatever kind comes first
+    for ct in ("list", "tuple"):
+        for kinds in (("int", "float"), ("float", "int"), ("bool", "int", "int"), ("int", "float", "float"), ("bool", "float"), ("npfloat", "float"),
+                      ("npint", "float"), ("npbool", "npint"), ("float", "npfloat", "bool")):
+            out.append((ct, kinds))
     for ct in ("list", "tuple", "dict"):
         out.append((ct, ("npcomplex", "str")))
         out.append((ct, ("int", "npcomplex")))
@@ -934,7 +970,7 @@ ROOT_CASES = ["root:int", "root:ndarray1", "root:obj"]
 
 def attr_cases():
     if MODE["skip"]:
-        return ["int", "obj", "root:int", "root:obj", "str", "path", "ndarray1", "tensor", "module", "list:str", "dict", "pylogger", "rng:PCG64", "obj:module"]
+        return ["int", "obj", "root:int", "root:obj", "str", "path", "ndarray1", "tensor", "module", "list:str", "dict", "pylogger", "rng:PCG64", "obj:module", "obj:foreign"]
     return ATTR_CASES + ROOT_CASES
 
 
@@ -1023,12 +1059,12 @@ C_RLOAD = C_RLOADS[0]
 # ------------------------------------------------------------------------------------------------
 
 
-SVAL_CASES = ["obj:sym", "obj", "obj:empty", "obj:module"]
+SVAL_CASES = ["obj:sym", "obj", "obj:empty", "obj:module", "obj:foreign"]
 
 
 def sval_cases():
     # C14 (skip mode): nested objects with concrete attribute names; the arbitrary-name case is C01's (dispatch by duck typing)
-    return ["obj:module", "obj", "obj:empty"] if MODE["skip"] else SVAL_CASES
+    return ["obj:module", "obj", "obj:empty", "obj:foreign"] if MODE["skip"] else SVAL_CASES
 
 
 def sval_setup(ctx, part=(0, 1)):
@@ -1064,6 +1100,24 @@ def sval_ensures(s):
 
 C_SVALS = [Contract(f"{AS}._serialize_value", setup=functools.partial(sval_setup, part=(i, 2)), ensures=sval_ensures) for i in range(2)]
 C_SVAL = C_SVALS[0]
+
+# ------------------------------------------------------------------------------------------------
+# _is_autoserialize_instance : recognised iff an instance OR a class with an EQUAL marker (callers interpret the real body)
+# ------------------------------------------------------------------------------------------------
+
+ISAUTO_CASES = ["obj", "obj:empty", "obj:module", "obj:foreign", "none", "int", "str", "path", "npfloat", "ndarray1", "tensor", "module", "list:str", "dict", "set:int",
+                "pylogger", "rng:PCG64", "other"]
+
+
+def isauto_setup(ctx):
+    case = pick(ctx, "kind", ISAUTO_CASES)
+    return NS(value=mk_value(ctx, case), case=case)
+
+
+C_ISAUTO = Contract(f"{AS}._is_autoserialize_instance", setup=isauto_setup,
+                    ensures=lambda s: [] if s.mode != "verify" else
+                    [(f"[{s.case}]recognised-iff-AutoSerialize-instance-or-class-with-an-equal-marker", B(bool(s.result) == s.case.startswith("obj")))])
+
 
 # ------------------------------------------------------------------------------------------------
 # _is_numeric_scalar
@@ -1253,8 +1307,8 @@ def load_ensures(s):
 C_LOAD = Contract(f"{SER}:load", setup=load_setup, ensures=load_ensures)
 
 # heavy ones first (the pool hands tasks out in order)
-CONTRACTS = C_SVALS + C_RLOADS + C_DCONTS + C_SCONTS + C_RSAVES + C_SAVES + [C_LOAD, C_WND, C_WBYTES, C_A2NP, C_READ, C_ISNUM]
-INLINE_AT_CALL_SITES = C_SVALS  # verified on its own, but its callers keep interpreting the real body (more precise than a contract)
+CONTRACTS = C_SVALS + C_RLOADS + C_DCONTS + C_SCONTS + C_RSAVES + C_SAVES + [C_LOAD, C_WND, C_WBYTES, C_A2NP, C_READ, C_ISNUM, C_ISAUTO]
+INLINE_AT_CALL_SITES = C_SVALS + [C_ISAUTO]  # verified on its own, but its callers keep interpreting the real body (more precise than a contract)
 LEMMAS = []
 BOUNDED = []
 TRUSTED = []
@@ -1354,6 +1408,8 @@ def concrete(desc, dims=None):
         return -5 - i
     if leaf == "float":
         return 2.5 + i
+    if leaf == "float01":
+        return 0.1 + i   # not representable in float32 / float16
     if leaf == "str":
         return f"s{i}"
     if leaf == "emptystr":
@@ -1364,6 +1420,16 @@ def concrete(desc, dims=None):
         return pathlib.Path(f"/tmp/some dir/f{i}.txt")
     if leaf == "relpath":
         return pathlib.Path("a") / f"b{i}"
+    if leaf == "tildepath":
+        return pathlib.Path("~/scans") / f"run{i}.h5"   # leading '~' component: must come back textually equal (not expanded)
+    if leaf == "tildeonly":
+        return pathlib.Path("~")
+    if leaf == "tildeuser":
+        return pathlib.Path("~no_such_user_c01") / f"x{i}"
+    if leaf == "midtilde":
+        return pathlib.Path("a/~b") / f"~c{i}"
+    if leaf == "dotdotpath":
+        return pathlib.Path("../up/./x") / f"y{i}"
     if leaf == "npint":
         return np.int64(9 + i)
     if leaf == "npint8":
@@ -1427,6 +1493,10 @@ def concrete(desc, dims=None):
         return {"k": 3}
     if leaf == "obj":
         return Inner(c=5)
+    if leaf == "obj:foreign":
+        return ForeignAuto(c=5, raw=np.ones(2), d=Leaf(a=1))
+    if leaf == "obj:module":
+        return NNInner(c=5)
     raise ValueError(f"unknown grammar term {desc!r}")
 
 
@@ -1522,7 +1592,7 @@ def equiv_rt(l, o, path, out):
         if type(l) is not type(o):
             bad("logger kind", f"SummaryWriter came back as {type(l).__name__}")
         return
-    if isinstance(o, AutoSerialize):
+    if is_auto(o):
         if type(l) is not type(o):
             bad("class", f"{type(o).__name__} came back as {type(l).__name__}")
             return
@@ -1727,6 +1797,10 @@ def rt_case(inp):
     else:
         descs = [f"{pos}(" + ",".join(kinds) + ")"]
     probs = rt_values(dict(values=descs + ["int"], dims=inp.get("dims"), store=inp.get("store", "zip")))
+    if any("path" in k for k in kinds):
+        # the symbolic path value is an arbitrary string: also replay with the other members of the path value domain
+        for alt in ("tildepath", "tildeuser", "tildeonly", "dotdotpath"):
+            probs += rt_values(dict(values=[dsc.replace("path", alt) for dsc in descs], store=inp.get("store", "zip")))
     probs = [p for p in probs if not p[0].startswith("extra attribute _autoserialize_skip")] if pos != "root" else probs
     return dict(violated=bool(probs), observed="; ".join(f"{k} at {w}: {m}" for k, w, m in probs[:3]) or "ok",
                 expected="load(save(x)) has the same class, attribute names and structurally equal values")
@@ -1866,7 +1940,7 @@ def filter_expected(obj, names, types=()):
             continue
         if k in names or (types and isinstance(v, tuple(types))):
             continue
-        out.__dict__[k] = filter_expected(v, names, types) if isinstance(v, AutoSerialize) else v
+        out.__dict__[k] = filter_expected(v, names, types) if is_auto(v) else v
     return out
 
 
@@ -1880,12 +1954,14 @@ def skip_fixture(kind="plain"):
     import numpy as np
 
     leaf = Leaf(a=3, e=(1, "t"), raw=np.ones(1))
-    mid_cls = NNInner if kind == "module" else Inner
+    mid_cls = NNInner if kind == "module" else ForeignAuto if kind == "foreign" else Inner
     # dict-valued attributes whose KEYS are spelled like skippable attribute names / whose values are instances of skippable types:
     # containers are not attributes - skipping must not reach into them
     mid = mid_cls(a=2, b="x", raw=[1, 2], d=leaf, settings={"a": 5, "e": "kept", "zz_absent": [1, "y"]})
     return Box(a=1, b=np.arange(3.0), raw=np.zeros(2), c=mid, t=_torch.ones(2), s="keep", lst=[1, "x"],
-               settings={"a": 7, "raw": np.ones(2), "d": "kept", "bias": 0.5}, pair=("x", np.zeros(1)))
+               settings={"a": 7, "raw": np.ones(2), "d": "kept", "bias": 0.5}, pair=("x", np.zeros(1)),
+               # instances of skippable types through SUBCLASSING only: bool < int, nn.Parameter < Tensor, np.float64 < float
+               flag=True, par=_torch.nn.Parameter(_torch.ones(2)), f64=np.float64(0.5))
 
 
 SKIP_UNIVERSE = ["a", "b", "raw", "c", "d", "e", "zz_absent"]
@@ -1942,6 +2018,11 @@ def fam_skip(tier="quick", seed=0):
         for store in ("zip", "dir"):
             yield dict(save=[], load=[], save_types=tn, store=store)
         yield dict(save=["a"], load=["e"], save_types=tn, store="zip")
+    # nested object recognised through an equal (not identical) class marker only
+    for S in (["raw"], ["a", "e"], ["d"]):
+        yield dict(fixture="foreign", save=S, load=[], store="zip", compare_times=True)
+        yield dict(fixture="foreign", save=[], load=S, store="dir")
+    yield dict(fixture="foreign", save=[], load=[], save_types=["ndarray"], store="zip")
     yield dict(fixture="module", save=["raw"], load=[], store="zip")
     yield dict(fixture="module", save=[], load=["raw"], store="dir")
 
@@ -1965,7 +2046,7 @@ def run_skip_bounded(tier, seed):
 
 def rt_skip_case(inp):
     """Replay of a symbolic skip-mode case: the small name subsets over the fixture that exercises the case's kind."""
-    fixture = "module" if any("module" in k for k in inp.get("kinds", [])) else "plain"
+    fixture = "module" if any("module" in k for k in inp.get("kinds", [])) else "foreign" if any("foreign" in k for k in inp.get("kinds", [])) else "plain"
     worst = None
     for S in (["a"], ["raw"], ["c"], ["d"], ["a", "raw"], ["e", "b"], ["zz_absent"], []):
         for mode in ("save", "load"):
@@ -1988,9 +2069,9 @@ for _c in C_RSAVES + C_RLOADS + C_SCONTS + C_DCONTS + C_SVALS:
 # bounded stand-in for C01: equiv(load(save(x)), x) over an enumerated value grammar
 # ------------------------------------------------------------------------------------------------
 
-G_LEAVES = ["none", "bool", "int", "negint", "bigint", "float", "str", "emptystr", "unistr", "path", "relpath", "npint", "npint8", "npuint16", "npfloat",
+G_LEAVES = ["none", "bool", "int", "negint", "bigint", "float", "str", "emptystr", "unistr", "path", "relpath", "tildepath", "tildeonly", "tildeuser", "midtilde", "dotdotpath", "npint", "npint8", "npuint16", "npfloat",
             "npfloat64", "npfloat16", "npbool", "ndarray0", "ndarray1", "ndarray2", "ndarray3", "tensor", "tensor_grad", "tensor_nonleaf", "tensor_int", "tensor0",
-            "tensor_empty", "parameter", "module", "pylogger", "tlogger", "rng:PCG64", "obj", "obj:empty", "inner(c=int,d=ndarray1)"]
+            "tensor_empty", "parameter", "module", "pylogger", "tlogger", "rng:PCG64", "obj", "obj:empty", "obj:foreign", "inner(c=int,d=ndarray1)"]
 G_EXTRA = ["optimizer", "scheduler", "other", "pycomplex"]
 G_KNOWN_BAD_SAVE = ["npcomplex", "rng:MT19937", "rng:Philox", "rng:SFC64"]
 G_PAIR = ["int", "str", "none", "path", "npfloat", "ndarray1", "tensor", "obj", "list(int,str)"]
@@ -2037,6 +2118,12 @@ def grammar(tier="quick"):
             "list(bool,bool)", "list(int,bool,float)", "tuple(npint,npfloat)", "list(npbool,npbool)", "list(int,none)", "list(bigint,int)",
             "obj(x=list(tensor_nonleaf),y=tensor_nonleaf)", "inner(c=dict(a=tuple(tensor_nonleaf,str)))", "list(obj(x=tuple(tensor_nonleaf)))"]
     out += G_DOTNAMES
+    # all-numeric sequences of mixed numeric kinds (the narrower kind first / last), also nested and inside sets' tuples
+    for T in ("list", "tuple"):
+        out += [f"{T}(int,float)", f"{T}(float,int)", f"{T}(bool,int#1,int#2)", f"{T}(int,float,float#1)", f"{T}(bool,float)", f"{T}(npfloat,float#7)",
+                f"{T}(npfloat16,float)", f"{T}(npfloat,float01)", f"{T}(int,float01,float01#1)", f"{T}(npint8,bigint)", f"{T}(npint,float)", f"{T}(npbool,npint)", f"{T}(float,npfloat,bool)", f"dict(k={T}(int,float))",
+                f"list({T}(bool,int#1),{T}(int,float))"]
+    out += ["set(tuple(int,float),tuple(bool,int#3))", "list(tildepath,str)", "dict(p=tildepath,q=tuple(tildeuser))", "obj(p=tildepath,q=inner(c=tildeonly))", "set(tildepath,path)"]
     # wide containers (>= 11 elements: two-digit keys)
     out += ["wide:list:int:11", "wide:list:str:12", "wide:tuple:float:11", "wide:tuple:str:13", "wide:dict:int:12", "wide:dict:ndarray1:11", "wide:list:ndarray1:11",
             "wide:list:none:11", "wide:list:path:11", "wide:tuple:tensor:11"]
@@ -2379,3 +2466,25 @@ for _c in CONTRACTS:
 for _i, _c in enumerate(C_SAVES):
     _c.concretize, _c.rt = functools.partial(conc_save, part=(_i, 2)), rt_save
 C_LOAD.concretize, C_LOAD.rt = conc_load, rt_load
+
+
+
+def rt_isauto(inp):
+    case = inp["kinds"][0]
+    try:
+        v = concrete(case)
+        got = bool(AutoSerialize._is_autoserialize_instance(v))
+    except Exception as e:
+        return dict(violated=True, observed=f"raised {type(e).__name__}: {e}", expected="a bool")
+    want = is_auto(v)
+    return dict(violated=got != want, observed=f"_is_autoserialize_instance({type(v).__name__}) = {got}", expected=f"{want} (instance, or class with an equal marker)")
+
+
+def conc_isauto(ev):
+    i = ev("kind")
+    return dict(kinds=[ISAUTO_CASES[i]]) if isinstance(i, int) and 0 <= i < len(ISAUTO_CASES) else None
+
+
+C_ISAUTO.concretize, C_ISAUTO.rt = conc_isauto, rt_isauto
+C_ISAUTO.canary_path_limit = 16
+C_ISAUTO.inline = set(INLINED)
